@@ -55,7 +55,7 @@ Res(main, ts, bl) == [main |-> main, ts |-> ts, bl |-> bl]
 L(i) == ToString(i)
 
 WrapKinds == {"range", "rangekv", "rangeelse", "if", "ifelse", "iflet", "ifletelse", "let",
-              "ycont", "ycontp", "ydef", "yctx", "ybody", "ybodyp", "blockdef",
+              "ycont", "ycontp", "ydef", "yctx", "yctxp", "ybody", "ybodyp", "blockdef",
               "include", "includectx", "exec", "issetexec", "tryin", "tryincatch", "catchbody"}
 
 \* the wrappers that push interpreter state (used for the deepest enumeration)
@@ -91,6 +91,10 @@ Wrap(kind, i, r) ==
     [] kind = "yctx"      -> Res(<<YieldC(id(""), "bc" \o L(i), <<>>, Lit("c" \o L(i)), m)>>, r.ts,
                                  r.bl \o <<BlockS(id("d"), "bc" \o L(i), <<>>, NoE,
                                                    <<P(id("a"), Ctx), LetS(id("l"), "s", Lit("bl" \o L(i))), YContentCx(id("y"), Lit("cc" \o L(i))), P(id("b"), Var("s"))>>)>>)
+    \* an explicit context AND an argument that reads '.': the argument is evaluated with the caller's '.'
+    [] kind = "yctxp"     -> Res(<<YieldC(id(""), "br" \o L(i), <<Par("p", Ctx)>>, Lit("cq" \o L(i)), m)>>, r.ts,
+                                 r.bl \o <<BlockS(id("d"), "br" \o L(i), <<Par("p", Lit("pd")), Par("q1", Ctx)>>, NoE,
+                                                   <<P(id("a"), Var("p")), P(id("a2"), Var("q1")), P(id("a3"), Ctx), YContent(id("y")), T(id("b"))>>)>>)
     [] kind = "ybody"     -> Res(<<YieldC(id(""), "bb" \o L(i), <<>>, NoE, <<T(id("cc"))>>)>>, r.ts,
                                  r.bl \o <<BlockS(id("d"), "bb" \o L(i), <<>>, NoE, <<YContent(id("y"))>> \o m)>>)
     [] kind = "ybodyp"    -> Res(<<YieldC(id(""), "bq" \o L(i), <<Par("p", Lit("pv" \o L(i)))>>, Lit("c" \o L(i)), <<T(id("cc"))>>)>>, r.ts,
